@@ -41,7 +41,7 @@ func (c17Stream) Name() string               { return "c17" }
 func (c17Stream) CaseTimeout() time.Duration { return 30 * time.Second }
 func (c17Stream) NoModel() bool              { return true }
 func (c17Stream) Rule() string {
-	return "a poller spins on Ready() concurrently with Run over valid address forms (IPv4, localhost, bare :port, bracketed and bare IPv6 when available) with and without a TLS listener: at the first true a TCP connect and a bind request must succeed and be answered; ports that are already bound and malformed addresses (no port, empty port, unbalanced brackets, bad literals, ports outside 0..65535 in every address form): Run must return an error and Ready must stay false; non-trivial = every case, distinct by address form"
+	return "a poller spins on Ready() concurrently with Run over valid address forms (IPv4, localhost, bare :port, bracketed and bare IPv6 when available) with and without a TLS listener: at the first true a TCP connect and a bind request must succeed and be answered; ports that are already bound and malformed addresses (no port, empty port, unbalanced brackets, bad literals, ports outside 0..65535 in every address form): Run must return an error and Ready must stay false; TLS configurations without a certificate or with certificates only from GetCertificate / GetConfigForClient: either Run fails and Ready was never true, or Ready is true and a connection attempt succeeds (and a TLS client is served where the configuration can serve one); non-trivial = every case, distinct by address form"
 }
 
 func (c17Stream) Generate(rng *rand.Rand, n int, thorough bool) []Case {
@@ -53,7 +53,11 @@ func (c17Stream) Generate(rng *rand.Rand, n int, thorough bool) []Case {
 		"[[::1]]:%p", "[::1]]:%p", "[[::1]:%p", "[]::1:%p", "[::1:%p", "[::1]x:%p"}
 	var cs []Case
 	for len(cs) < n {
-		switch rng.Intn(4) {
+		switch rng.Intn(5) {
+		case 4:
+			// TLS configurations of unusual shape: without any certificate, or with certificates supplied only through
+			// GetCertificate / GetConfigForClient
+			cs = append(cs, Case{Line: "c17 kind=tlscfg shape=" + []string{"nocert", "getcert", "getconfig"}[rng.Intn(3)], Kind: "tlscfg"})
 		case 0:
 			if rng.Intn(3) == 0 {
 				cs = append(cs, Case{Line: "c17 kind=busy6 tls=0", Kind: "busy"})
@@ -155,6 +159,74 @@ func (c17Stream) Impl(c Case) string {
 		}
 		return verdict
 	}
+	if p["kind"] == "tlscfg" {
+		var cfg *tls.Config
+		switch p["shape"] {
+		case "nocert":
+			cfg = &tls.Config{MinVersion: tls.VersionTLS12}
+		case "getcert":
+			cfg = &tls.Config{GetCertificate: func(*tls.ClientHelloInfo) (*tls.Certificate, error) { return &srvTLS.Certificates[0], nil }}
+		default:
+			cfg = &tls.Config{GetConfigForClient: func(*tls.ClientHelloInfo) (*tls.Config, error) { return srvTLS, nil }}
+		}
+		var sawReady int32
+		stopPoll := make(chan struct{})
+		defer close(stopPoll)
+		go func() {
+			for {
+				select {
+				case <-stopPoll:
+					return
+				default:
+				}
+				if srv.Ready() {
+					atomic.StoreInt32(&sawReady, 1)
+				}
+			}
+		}()
+		errc := make(chan error, 1)
+		go func() { errc <- srv.Run(base, gldap.WithTLSConfig(cfg)) }()
+		verdict := "ok"
+		select {
+		case e := <-errc:
+			// Run gave up: then Ready must never have been true (nobody called Stop, and nothing listens)
+			time.Sleep(10 * time.Millisecond)
+			if atomic.LoadInt32(&sawReady) == 1 || srv.Ready() {
+				verdict = fmt.Sprintf("Ready() reported true although Run returned (%v) without Stop being called, and nothing listens", e)
+			}
+			return verdict
+		case <-time.After(300 * time.Millisecond):
+		}
+		if !srv.Ready() {
+			verdict = "Run is running but Ready() is false after 300 ms"
+		} else if p["shape"] == "nocert" {
+			c, err := net.DialTimeout("tcp", base, 3*time.Second)
+			if err != nil {
+				verdict = "connection attempt failed although Ready() == true: " + err.Error()
+			} else {
+				c.Close()
+			}
+		} else {
+			cl, err := dialRaw(base, cliTLS)
+			if err != nil {
+				verdict = "TLS connection attempt failed although Ready() == true: " + err.Error()
+			} else {
+				_ = cl.send(opFrame("bind", 7))
+				f, err := cl.readFrame(5 * time.Second)
+				if err != nil || !strings.HasPrefix(strictView(f), "result id=7 tag=1 code=0") {
+					verdict = fmt.Sprintf("request sent after Ready() == true was not served: %v", err)
+				}
+				cl.close()
+			}
+		}
+		done := make(chan struct{})
+		go func() { _ = srv.Stop(); close(done) }()
+		select {
+		case <-done:
+		case <-time.After(3 * time.Second):
+		}
+		return verdict
+	}
 	form := string(unhx(p["form"]))
 	if strings.Contains(form, "::1") {
 		l, err := net.Listen("tcp", "[::1]:0")
@@ -208,7 +280,7 @@ func (c17Stream) Oracle(c Case, impl string) (bool, string, string) {
 		return true, "", ""
 	}
 	key := "c17/" + c.Kind
-	if strings.HasPrefix(impl, "Ready() reported true") {
+	if strings.HasPrefix(impl, "Ready() reported true") && c.Kind != "tlscfg" {
 		key = "c17/ready-after-failed-listen"
 	}
 	return false, impl, key
@@ -225,13 +297,17 @@ type c12Stream struct{}
 func (c12Stream) Name() string               { return "c12" }
 func (c12Stream) CaseTimeout() time.Duration { return 60 * time.Second }
 func (c12Stream) Rule() string {
-	return "Stop relative to Run: K connections (0..8; plain or TLS, leaving with a close or a TCP reset) with handlers blocked, slow (60 ms) or long-running (1.8 s) and a slow OnClose callback, clients leaving right after Stop is called; Stop before Run; two concurrent Stops and a third afterwards; clients that send requests and hang up without reading; Run and Stop started together 1500 times with random head starts; and the scripted accept race (a connection accepted, Stop runs to completion, then Run continues); oracle, sampled the instant Stop has returned and Run has returned: the port refuses connections and can be bound again, no handler is running, every accepted connection has been closed and its OnClose has completed; non-trivial = at least one connection or a scripted race, distinct by scenario"
+	return "Stop relative to Run: K connections (0..8; plain or TLS, leaving with a close or a TCP reset) with handlers blocked, slow (60 ms) or long-running (1.8 s) and a slow OnClose callback, clients leaving right after Stop is called; Stop before Run; two concurrent Stops and a third afterwards; clients that send requests and hang up without reading; clients that never read the large results of their searches and stay connected (after Stop each must find its socket closed); Run and Stop started together 1500 times with random head starts; and the scripted accept race (a connection accepted, Stop runs to completion, then Run continues); oracle, sampled the instant Stop has returned and Run has returned: the port refuses connections and can be bound again, no handler is running, every accepted connection has been closed and its OnClose has completed; non-trivial = at least one connection or a scripted race, distinct by scenario"
 }
 
 func (c12Stream) Generate(rng *rand.Rand, n int, thorough bool) []Case {
 	var cs []Case
 	for len(cs) < n {
-		switch rng.Intn(6) {
+		switch rng.Intn(7) {
+		case 6:
+			// clients that never read the large results of their searches, and stay: when Stop has returned their
+			// sockets must be closed all the same (the writes to them failed)
+			cs = append(cs, Case{Line: fmt.Sprintf("c12 kind=stalled conns=%d tls=0", 1+rng.Intn(4)), Kind: "stalled"})
 		case 0:
 			cs = append(cs, Case{Line: "c12 kind=stopBeforeRun", Kind: "stopBeforeRun"})
 		case 1:
@@ -262,6 +338,14 @@ func (c12Stream) Impl(c Case) string {
 		defer atomic.AddInt32(&running, -1)
 		rc.enter(r)
 		if _, ok := r.VerifMessage().(*gldap.SearchMessage); ok {
+			if p["kind"] == "stalled" {
+				big := strings.Repeat("q", 50000)
+				for i := 0; i < 400; i++ {
+					if err := w.Write(r.NewSearchResponseEntry("e", gldap.WithAttributes(map[string][]string{"p": {big}}))); err != nil {
+						return
+					}
+				}
+			}
 			switch p["inflight"] {
 			case "blocked":
 				<-released
@@ -485,6 +569,36 @@ func (c12Stream) Impl(c Case) string {
 		sut.finish()
 		return verdict + "\t" + traceString(sut.tr.Snapshot(), "conn.", "loop.", "req.")
 	}
+	if p["kind"] == "stalled" {
+		for _, cl := range clients {
+			_ = cl.send(append(append(opFrame("search", 11), opFrame("search", 12)...), opFrame("search", 13)...))
+		}
+		// the handlers fill the sockets and block in Write
+		time.Sleep(150 * time.Millisecond)
+		if !sut.stop(8 * time.Second) {
+			fail("Stop did not return with clients that do not read")
+		} else if waitRun() {
+			sample("Stop returned (stalled clients)")
+			// the clients now read what is in flight: each must reach the end of its stream, i.e. the server has really
+			// closed the socket
+			for i, cl := range clients {
+				_ = cl.c.SetReadDeadline(time.Now().Add(4 * time.Second))
+				buf := make([]byte, 1<<16)
+				for {
+					_, err := cl.c.Read(buf)
+					if err == nil {
+						continue
+					}
+					if ne, ok := err.(net.Error); ok && ne.Timeout() {
+						fail("Stop returned (stalled clients): connection %d is still open: the client reads no end of stream", i+1)
+					}
+					break
+				}
+			}
+		}
+		sut.finish()
+		return verdict + "\t" + traceString(sut.tr.Snapshot(), "conn.", "loop.", "req.")
+	}
 	// quiescent: clients leave right after Stop is called; blocked handlers are released a little later
 	stopDone := make(chan bool, 1)
 	go func() { stopDone <- sut.stop(8 * time.Second) }()
@@ -517,7 +631,7 @@ func (c12Stream) Oracle(c Case, impl string) (bool, string, string) {
 	}
 	key := "c12/" + c.Kind
 	switch {
-	case strings.Contains(impl, "OnClose has completed"), strings.Contains(impl, "have been closed"):
+	case strings.Contains(impl, "OnClose has completed"), strings.Contains(impl, "have been closed"), strings.Contains(impl, "is still open"):
 		key = "c12/" + c.Kind + "/stop-returns-before-close-and-onclose"
 	case strings.Contains(impl, "still bound"), strings.Contains(impl, "cannot be bound"), strings.Contains(impl, "still accepts"):
 		key = "c12/" + c.Kind + "/port-not-released"
